@@ -125,7 +125,17 @@ impl RoaringTreemap {
     /// ```
     pub fn push(&mut self, value: u64) -> bool {
         let (hi, lo) = util::split(value);
-        self.map.entry(hi).or_default().push(lo)
+        // BTreeMap last_mut not stabilized see https://github.com/rust-lang/rust/issues/62924
+        match self.map.iter_mut().next_back() {
+            Some((&key, bitmap)) if key == hi => bitmap.push(lo),
+            Some((&key, _)) if key > hi => false,
+            _otherwise => {
+                let mut rb = RoaringBitmap::new();
+                rb.push(lo);
+                self.map.insert(hi, rb);
+                true
+            }
+        }
     }
 
     /// Pushes `value` in the treemap only if it is greater than the current maximum value.
